@@ -420,7 +420,8 @@ def find_links(
                 if unknown_handling == LNK_UNKNOWN_NONNEIGHBOR:
                     continue
                 if unknown_handling == LNK_UNKNOWN_NEIGHBOR:
-                    links.add(link)
+                    if filterfunc is None or filterfunc(link):
+                        links.add(link)
                 else:
                     raise NotImplementedError(
                         f"Unknown link class {type(link)}"
